@@ -394,31 +394,51 @@ def run(ctx, big=False):
     t1, r1 = run_histories(ctx, res, 20 if not thorough else 150, 60 if not thorough else 150, stats)
     t2, r2 = run_histories(ctx, res, 2 if not thorough else 10, 420, stats, many_keys=True)
     t3, r3 = directed(ctx, res, stats)
+    t4, r4 = directed_nan_keys(ctx, res, stats)
     if not ctx.search_mode:
-        correspondence(ctx, res, t0 + t1 + t2 + t3, r0 + r1 + r2 + r3)
+        correspondence(ctx, res, t0 + t1 + t2 + t3 + t4, r0 + r1 + r2 + r3 + r4)
     res.extra.update({'op_histogram': stats['ops'], 'items_removed_lazily_after_expiry': stats['lazy_expired'],
                       'items_evicted_at_limit': stats['evicted'], 'largest_table': stats['max_rows'],
                       'short_sequences': stats['short_sequences']})
-    res.witnessed['iterkeys_nan_key_incomplete'] = witness_nan_keys()
     return res
 
 
-def witness_nan_keys():
-    """Finding C03-F1 (Coq: C03_iterkeys_null_key_refuted): c[nan] = 1; c[7] = 2; c[nan] = 3 holds three items (nan != nan, as in
-    a Python dictionary) but key-ordered iteration lists one of them in either direction."""
-    import shutil
-    import tempfile
-    d = tempfile.mkdtemp(prefix='c03wit-')
-    try:
-        c = diskcache.Cache(d)
-        c[float('nan')] = 1
-        c[7] = 2
-        c[float('nan')] = 3
-        fwd, bwd, n = list(c.iterkeys()), list(c.iterkeys(reverse=True)), len(c)
-        c.close()
-        return n == 3 and len(fwd) < 3 and len(bwd) < 3
-    finally:
-        shutil.rmtree(d, ignore_errors=True)
+def directed_nan_keys(ctx, res, stats):
+    """Regression input of the repaired finding C03-F1 (former Coq counterexample C03_iterkeys_null_key_refuted, now
+    C03_iterkeys_nan_key_complete): c[nan] = 1; c[7] = 2; c[nan] = 3 used to hold three rows (the NaN key was bound as NULL and never
+    matched) of which key-ordered iteration listed one in either direction.  The history runs through the three-way check like any other
+    (reference dictionary: all NaNs are one key; table; Coq model), followed by every kind of iteration and the lookups and removals
+    by key; a return of the defect is reported under the signatures of that check (item_vanished / phantom_rows / dict_mismatch)."""
+    terms, recs = [], []
+    for policy in ('none', 'least-recently-stored'):
+        cfg = seqdrv.Config(policy=policy, min_file_size=16, cull_limit=0)
+        objs = [float('nan'), 7, 1, 2, 3, float('nan'), 'x' * 40]
+        S = lambda k, v, now: {'op': 'set', 'args': {'k': k, 'v': v, 'expire': None, 'tag': None}, 'now': now}
+        hist = [S(0, 2, 1000.0), S(1, 3, 1001.0), S(5, 4, 1002.0),
+                {'op': 'len', 'args': {}, 'now': 1003.0}, {'op': 'iter', 'args': {}, 'now': 1003.0}, {'op': 'reversed', 'args': {}, 'now': 1003.0},
+                {'op': 'iterkeys', 'args': {'reverse': False}, 'now': 1003.0}, {'op': 'iterkeys', 'args': {'reverse': True}, 'now': 1003.0},
+                {'op': 'get', 'args': {'k': 0, 'read': False}, 'now': 1003.0}, {'op': 'contains', 'args': {'k': 5}, 'now': 1003.0},
+                {'op': 'add', 'args': {'k': 0, 'v': 2, 'expire': None, 'tag': None}, 'now': 1003.0},
+                {'op': 'delete', 'args': {'k': 5}, 'now': 1004.0}, {'op': 'len', 'args': {}, 'now': 1004.0},
+                {'op': 'iterkeys', 'args': {'reverse': False}, 'now': 1004.0},
+                S(0, 6, 1005.0), {'op': 'pop', 'args': {'k': 5}, 'now': 1006.0}, {'op': 'len', 'args': {}, 'now': 1006.0},
+                {'op': 'iter', 'args': {}, 'now': 1006.0}]
+        r = seqdrv.Runner(ctx, cfg, observe_every=1)
+        r.objs = objs
+        tr = r.run(hist)
+        viol = check_trace(r, tr, cfg, stats, True)
+        res.count(['directed-nan-keys', policy], nontrivial=True)
+        for sig, what, idx in viol[:1]:
+            res.violations.append(fw.Violation(sig, 'float(nan) keys (regression input of the repaired finding C03-F1): ' + what,
+                                               dict(gen_hist.history_json(objs, hist[:idx + 1], cfg), check='history', failing_call=idx)))
+
+        class G:
+            pass
+        g = G()
+        g.objs = objs
+        terms.append(seqdrv.history_check_term(r, tr, cfg))
+        recs.append((g, hist, cfg))
+    return terms, recs
 
 
 def search(ctx, broken):
